@@ -500,6 +500,7 @@ type LoopSpec struct {
 	Asserts   []*Clause // proved at the end of the loop body (before the post statement), then assumed
 	Invs      []*Clause
 	Decreases *Clause
+	DeadBody    bool // `loop N deadbody`: the loop is reached with a false guard (body is dead code); proved at the loop
 	Unreachable bool // `loop N unreachable`: the loop head itself must be unreachable (dead branch)
 	AssumeTerm bool // decreases _
 }
@@ -847,6 +848,17 @@ func (cs *ContractSet) ReadFile(path, pkgName string, external bool) error {
 						cur.Loops[n] = &LoopSpec{}
 					}
 					cur.Loops[n].Unreachable = true
+					continue
+				}
+				if len(f) == 2 && f[1] == "deadbody" {
+					n, err := strconv.Atoi(f[0])
+					if err != nil {
+						return fmt.Errorf("%s: loop ordinal: %v", l.pos, err)
+					}
+					if cur.Loops[n] == nil {
+						cur.Loops[n] = &LoopSpec{}
+					}
+					cur.Loops[n].DeadBody = true
 					continue
 				}
 				if len(f) < 3 {
